@@ -717,3 +717,25 @@ def _negated_inside(e, rx):
         if x.k == 'un' and x.a == 'Not' and x.b.mentions_call(rx) is not None:
             return True
     return False
+
+
+def cmp_is(c, xpred, ops, ypred):
+    """does comparison fact c say  X op Y  (op in ops) for some X matching xpred, Y matching ypred —
+    in either operand order? preds take the Expr."""
+    if c.kind != 'cmp':
+        return False
+    if isinstance(ops, str):
+        ops = (ops,)
+    if xpred(c.lhs) and ypred(c.rhs) and c.op in ops:
+        return True
+    if xpred(c.rhs) and ypred(c.lhs) and F.CMP_FLIP[c.op] in ops:
+        return True
+    return False
+
+
+def ends(suffix):
+    return lambda e: e.strip().show().endswith(suffix)
+
+
+def has(*subs):
+    return lambda e: all(s in e.show() for s in subs)
